@@ -1,8 +1,126 @@
+/-
+C19 — duration strings and numbers convert consistently in both directions.
+
+Model: EdzedModel/TimeUnits.lean (`convert`, `timePeriod`, `timestr`, `timestrApprox` on character
+lists and exact rationals; mirrors edzed/utils/timeunits.py).  The renderings the theorems
+quantify over (`NumText`, `Piece`, `TradR`, `IsoR`) are defined in EdzedProofs/TimeUnits.lean:
+
+* `NumText`  a number: any non-empty digit string (leading zeros allowed), optionally `.`/`,` and a
+  non-empty digit string; `val` is its decimal value;
+* `Piece`    `<whitespace> number <whitespace> letter` (lower or upper case; the seconds' letter may
+  be left out), `TradR` up to four pieces in the order d, h, m, s plus trailing whitespace;
+* `IsoR`     `<ws> P [nY] [nM] [nD] [T [nH] [nM] [nS]] <ws>`.
+
+The unit sizes in the statements are the literal numbers of the documentation (86400, 3600, 60); the
+model computes with the constants generated from edzed/utils/tconst.py, so a changed constant
+breaks the proofs below.
+-/
 import EdzedModel.TimeUnits
 import EdzedProofs.TimeUnits
+import EdzedModel.Gen.Constants
 
 namespace Edzed.TimeUnits
 
+/-- tie to the source: the generated constants are the documented unit sizes -/
+theorem unit_constants :
+    Gen.secPerDay = 86400 ∧ Gen.secPerHour = 3600 ∧ Gen.secPerMin = 60 := by decide
+
+/-- **traditional format**: every rendering – any subset of the units in the order d h m s, each
+    letter in either case, any ASCII whitespace in front of, between and behind numbers and letters,
+    the seconds' letter optional, numbers with leading zeros, a decimal point or comma in the
+    smallest unit that is present – converts to `86400 d + 3600 h + 60 m + s`. -/
+theorem convert_render_trad (r : TradR) (wf : r.WF) (hfrac : fracSmallestOnly r.nums = true)
+    (hne : r.NonEmpty) :
+    convert r.text =
+      .ok (86400 * ntVal (pnum r.d) + 3600 * ntVal (pnum r.h) + 60 * ntVal (pnum r.m) + ntVal (pnum r.s)) := by
+  rw [convert_trad_sum r wf hfrac hne, scaledSum_trad]
+
+/-- the same for plain natural numbers: `"<d>d<h>h<m>m<s>s"` with any subset, case and whitespace -/
+theorem convert_render_trad_nat (d h m s : Option Nat) (pre : Fin 4 → List Char) (mid : Fin 4 → List Char)
+    (up : Fin 4 → Bool) (bare : Bool) (post : List Char)
+    (hpre : ∀ i, allWs (pre i)) (hmid : ∀ i, allWs (mid i)) (hpost : allWs post)
+    (hne : d.isSome ∨ h.isSome ∨ m.isSome ∨ s.isSome) :
+    let piece (i : Fin 4) (b : Bool) (n : Nat) : Piece :=
+      { pre := pre i, num := ⟨natStr n, none⟩, mid := mid i, upper := up i, bare := b }
+    let r : TradR := { d := d.map (piece 0 false), h := h.map (piece 1 false), m := m.map (piece 2 false),
+                       s := s.map (piece 3 bare), post := post }
+    convert r.text = .ok ((86400 * d.getD 0 + 3600 * h.getD 0 + 60 * m.getD 0 + s.getD 0 : Nat) : Rat) := by
+  intro piece r
+  have pwf : ∀ i b n, (piece i b n).WF := fun i b n =>
+    ⟨hpre i, hmid i, natStr_ne_nil _, allDigits_natStr _, trivial⟩
+  have wf : r.WF := by
+    refine ⟨?_, ?_, ?_, ?_, hpost⟩
+    · intro q hq; cases d <;> simp [r] at hq; subst hq; exact ⟨pwf _ _ _, rfl⟩
+    · intro q hq; cases h <;> simp [r] at hq; subst hq; exact ⟨pwf _ _ _, rfl⟩
+    · intro q hq; cases m <;> simp [r] at hq; subst hq; exact ⟨pwf _ _ _, rfl⟩
+    · intro q hq; cases s <;> simp [r] at hq; subst hq; exact pwf _ _ _
+  have hf : fracSmallestOnly r.nums = true := by
+    cases d <;> cases h <;> cases m <;> cases s <;>
+      simp [r, piece, TradR.nums, pnum, fracSmallestOnly, NumText.hasFrac]
+  have hn : r.NonEmpty := by
+    cases d <;> cases h <;> cases m <;> cases s <;> simp_all [r, TradR.NonEmpty, TradR.nums, pnum]
+  rw [convert_render_trad r wf hf hn]
+  have hv : ∀ (o : Option Nat) i b, ntVal (pnum (o.map (piece i b))) = ((o.getD 0 : Nat) : Rat) := by
+    intro o i b
+    cases o <;> simp [pnum, ntVal, piece, NumText.val, fracVal, digitsVal_natStr, Rat.add_zero]
+  simp only [r, hv]
+  push_cast
+  rfl
+
+/-- non-vacuity / reading aid: `" 1D 02 h3m 4,50 "` is such a rendering and is worth 93784.5 s -/
+example : convert [' ', '1', 'D', ' ', '0', '2', ' ', 'h', '3', 'm', ' ', '4', ',', '5', '0', ' '] = .ok (187569 / 2) := by decide +kernel
+
+/-- **timestr is the inverse of convert, integers**: for every natural number of seconds and every
+    separator made of whitespace, `convert(timestr(n, sep)) = n` exactly. -/
+theorem timestr_inverse_int (n : Nat) (sep : List Char) (hs : allWs sep) (prec : Nat) :
+    ∃ txt, timestr (.int n) sep prec = some txt ∧ convert txt = .ok (n : Rat) := by
+  refine ⟨timestrTicks n 0 sep, by simp [timestr], ?_⟩
+  rw [convert_timestrTicks n 0 sep hs]
+  congr 1
+  grind
+
+/-- **timestr is the inverse of convert, floats**: for every rational `q ≥ 0` (the exact value of a
+    float), every precision and whitespace separator, `timestr` prints a string that `convert`
+    maps to `roundHalfEven(q·10^prec) / 10^prec`, which is within half a unit of the last printed
+    decimal place of `q`. -/
+theorem timestr_inverse_frac (q : Rat) (hq : 0 ≤ q) (prec : Nat) (sep : List Char) (hs : allWs sep) :
+    ∃ txt y, timestr (.float q) sep prec = some txt ∧ convert txt = .ok y ∧
+      y = ((roundHalfEven (q * 10 ^ prec) : Int) : Rat) / 10 ^ prec ∧
+      y - q ≤ 1 / (2 * 10 ^ prec) ∧ q - y ≤ 1 / (2 * 10 ^ prec) := by
+  have hnot : ¬ q < 0 := Rat.not_lt.mpr hq
+  obtain ⟨h1, h2, h3⟩ := roundTicks_bounds q hq prec
+  have hp : ((10 ^ prec : Nat) : Rat) = (10 : Rat) ^ prec := by
+    rw [Rat.natCast_pow]; rfl
+  rw [hp] at h1 h2 h3
+  refine ⟨timestrTicks (roundTicks q prec) prec sep, _, by simp [timestr, hnot],
+    convert_timestrTicks _ _ sep hs, ?_, ?_, ?_⟩
+  · rw [hp, h1]
+  · rw [hp]; exact h2
+  · rw [hp]; exact h3
+
+/-- the carry at a rounding boundary: 59.9996 s is printed as one minute, not as 60.000 s -/
+example : timestr (.float (599996 / 10000)) [] 3 = some ['1', 'm', '0', '.', '0', '0', '0', 's'] := by decide +kernel
+example : timestr (.float (863999995 / 10000)) [] 3 = some ['1', 'd', '0', 'h', '0', 'm', '0', '.', '0', '0', '0', 's'] := by decide +kernel
+example : timestr (.int 93784) [' '] 3 = some ['1', 'd', ' ', '2', 'h', ' ', '3', 'm', ' ', '4', 's'] := by decide +kernel
+
+/-- negative numbers become 0, other numbers pass through (as floats) -/
+theorem negative_to_zero (q : Rat) (k : Kind) :
+    timePeriod (.atom (.num q k)) = .ok (some (if q < 0 then 0 else q)) := rfl
+
+theorem negative_to_zero' (q : Rat) (k : Kind) (hq : q < 0) :
+    timePeriod (.atom (.num q k)) = .ok (some 0) := by
+  rw [negative_to_zero, if_pos hq]
+
+/-- `None` stays `None` -/
 theorem none_to_none : timePeriod Val.none = .ok none := rfl
+
+/-- strings go through `convert` (a number stays that number, an error stays that error) -/
+theorem period_string (s : String) :
+    timePeriod (.atom (.str s)) = periodOfConvert (convert s.toList) := rfl
+
+/-- anything else (UNDEF, tuples, lists) is a TypeError -/
+theorem period_type_error (l : List Atom) :
+    timePeriod .undef = .error .type ∧ timePeriod (.tup l) = .error .type ∧
+      timePeriod (.lst l) = .error .type := ⟨rfl, rfl, rfl⟩
 
 end Edzed.TimeUnits
